@@ -68,12 +68,8 @@ def innerLDLT [BEq K] (be : Backend) (perm : Vector (Fin (n + p + m)) (n + p + m
     match ldlt (n + p + m) (permSym (assemble be kb) perm) with
     | .error _ => none
     | .ok (L, D) =>
-      let dinv : Vec K (n + p + m) := Vector.ofFn fun i => 1 / D[i]
       some fun rx ry rz =>
-        let b := permVec perm (assembleRhs be rx ry rz)
-        let y := fwdSubst true L b
-        let z : Vec K (n + p + m) := Vector.ofFn fun i => y[i] * dinv[i]
-        splitSol (permtVec perm (bwdSubst true L z))
+        splitSol (permtVec perm (solveLD (n + p + m) L D (permVec perm (assembleRhs be rx ry rz))))
 
 /-- inner factorisation of the dense back end: LLᵀ of the `n × n` matrix (natural order, abstract sqrt) -/
 def innerLLT [LE K] [DecidableLE K] (sqrtF : K → K) : Inner K n p m :=
